@@ -14,5 +14,6 @@ func TestProp(t *testing.T) {
 		kit.Clause[msCase]{Name: "C12/ms/configurations", Quick: 1200, Thorough: 24000, Gen: genMS, Check: checkMS, Fresh: true},
 		kit.Clause[c2fCase]{Name: "C12/mc/coarse-to-fine", Quick: 300, Thorough: 6000, Gen: genC2F, Check: checkC2F, Fresh: true},
 		kit.Clause[c2f2Case]{Name: "C12/ms/coarse-to-fine", Quick: 600, Thorough: 12000, Gen: genC2F2, Check: checkC2F2, Fresh: true},
+		kit.Clause[dcCase]{Name: "C12/dc/configurations", Quick: 300, Thorough: 6000, Gen: genDC, Check: checkDC, Fresh: true},
 	)
 }
